@@ -250,7 +250,15 @@ class CounterToken(Token, FileSystemEventHandler):
         for path in self.path.glob("*.token"):
             tf = old_cache.get(path.name)
             if tf is None:
-                tf = TokenFile(path)
+                try:
+                    tf = TokenFile(path)
+                except ValueError:
+                    # Token files are written while holding the IPC lock: an
+                    # incomplete one was left by a process that died before
+                    # writing it, and does not hold any token
+                    logger.warning("Removing incomplete token file %s", path)
+                    path.unlink()
+                    continue
                 tf.watch()
                 logging.debug("Read token file %s (%d)", path, tf.count)
             else:
